@@ -7,6 +7,7 @@
 package math
 
 import (
+	cryptorand "crypto/rand"
 	"crypto/rsa"
 	"math"
 	"math/big"
@@ -118,9 +119,13 @@ func SplitPQ(pq *big.Int) (p1, p2 *big.Int) {
 }
 
 func MakeGAB(g int32, g_a, dh_prime *big.Int) (b, g_b, g_ab *big.Int) {
-	rnd := rand.New(rand.NewSource(time.Now().UnixNano())) //nolint: gosec зачем
-	rndmax := big.NewInt(0).SetBit(big.NewInt(0), 2048, 1)
-	b = big.NewInt(0).Rand(rnd, rndmax)
+	// b is the secret exponent of diffie hellman key exchange: it MUST come from operating system's
+	// cryptographic random source, not from time seeded math/rand
+	randomBytes := make([]byte, 256) // 2048 bit
+	if _, err := cryptorand.Read(randomBytes); err != nil {
+		panic(err) // system random source is broken, can't continue
+	}
+	b = big.NewInt(0).SetBytes(randomBytes)
 	g_b = big.NewInt(0).Exp(big.NewInt(int64(g)), b, dh_prime)
 	g_ab = big.NewInt(0).Exp(g_a, b, dh_prime)
 
